@@ -442,14 +442,12 @@ func newResultObjectField(idx int, f reflect.StructField, opts resultOptions) (r
 		if err != nil {
 			return rof, err
 		}
-		if len(opts.As) > 0 {
-			// dig.As applies to a group-tagged field exactly as it does to
-			// a result provided with dig.Group.
-			opts.Group = f.Tag.Get(_groupTag)
-			r, err = newResult(f.Type, opts)
-			if err != nil {
-				return rof, err
-			}
+		// A group-tagged field is a result provided with dig.Group: the same
+		// types are accepted and dig.As applies in the same way.
+		opts.Group = f.Tag.Get(_groupTag)
+		r, err = newResult(f.Type, opts)
+		if err != nil {
+			return rof, err
 		}
 
 	default:
